@@ -69,9 +69,20 @@ def dictGet {κ ν : Type} [BEq κ] [Inhabited ν] (m : List (κ × ν)) (k : κ
   | some p => p.2
   | none => default
 
+/-- `d.get(k)` / `d.get(k, None)` -/
+def dictGet? {κ ν : Type} [BEq κ] (m : List (κ × ν)) (k : κ) : Option ν :=
+  match m.find? fun p => p.1 == k with
+  | some p => some p.2
+  | none => none
+
 /-- `d[k] = v` -/
 def dictSet {κ ν : Type} [BEq κ] (m : List (κ × ν)) (k : κ) (v : ν) : List (κ × ν) :=
   if m.any (fun p => p.1 == k) then m.map (fun p => if p.1 == k then (p.1, v) else p) else m ++ [(k, v)]
+
+/-- `d.update(zip(ks, vs))` (pairs up to the shorter of the two sequences, in order) -/
+def dictUpdateZip {κ ν : Type} [BEq κ] : List (κ × ν) → List κ → List ν → List (κ × ν)
+  | d, k :: ks, v :: vs => dictUpdateZip (dictSet d k v) ks vs
+  | d, _, _ => d
 
 /-! ### numbers -/
 
@@ -143,6 +154,11 @@ def whileSt {σ : Type} : Nat → σ → (σ → Bool × σ) → σ
   | 0, s, _ => s
   | f + 1, s, step => if (step s).1 then whileSt f (step s).2 step else (step s).2
 
+/-- `for x in xs: …` whose body may `break`: one round maps the loop state to `(go_on, new state)` -/
+def forBreak {α σ : Type} : List α → σ → (σ → α → Bool × σ) → σ
+  | [], s, _ => s
+  | x :: xs, s, f => if (f s x).1 then forBreak xs (f s x).2 f else (f s x).2
+
 /-! ### floats that are quotients of integers (exact) -/
 
 /-- `int(x)` for a float: truncation towards zero -/
@@ -158,6 +174,16 @@ def maxList (l : List Int) : Int :=
   match l with
   | [] => 0
   | x :: xs => xs.foldl max x
+
+/-- `sorted(l)` (ascending, stable insertion sort) -/
+def insertSorted (x : Int) : List Int → List Int
+  | [] => [x]
+  | y :: ys => if x ≤ y then x :: y :: ys else y :: insertSorted x ys
+
+def sorted (l : List Int) : List Int := l.foldr insertSorted []
+
+/-- `int(b)` / a `bool` used in arithmetic -/
+def boolToInt (b : Bool) : Int := if b then 1 else 0
 
 /-- `all(l)` -/
 def all (l : List Bool) : Bool := l.all id
